@@ -64,9 +64,9 @@ Proof.
   unfold kdelta, Urex; simpl. field.
 Qed.
 
-(* ---------- known finding (symeig_svd on complex input): the matrix the code hands to eigh is M M^T (plain transpose), not the Gram
-   matrix M M^H.  Witness: the 1 x 2 matrix (1, i) is non-zero, its M M^T vanishes while M M^H = 2; for matrices with real entries
-   the two coincide (the restricted statement that holds). *)
+(* ---------- regression witness (symeig_svd on complex input before d995974): the matrix the code handed to eigh was M M^T (plain
+   transpose), not the Gram matrix M M^H.  Witness: the 1 x 2 matrix (1, i) is non-zero, its M M^T vanishes while M M^H = 2; for
+   matrices with real entries the two coincide. *)
 Definition gramT (n : nat) (M : nat -> nat -> Cx) (a b : nat) : Cx := bigsum Cx cx0 cxadd n (fun j => cxmul (M a j) (M b j)).
 Definition gramH (n : nat) (M : nat -> nat -> Cx) (a b : nat) : Cx := bigsum Cx cx0 cxadd n (fun j => cxmul (M a j) (cxconj (M b j))).
 Lemma symeig_gram_refuted : exists M : nat -> nat -> Cx, gramT 2 M 0 0 = cx0 /\ gramH 2 M 0 0 = (2, 0).
